@@ -1388,7 +1388,11 @@ func (c *Conn) readAndProcessDatagram(ctx context.Context) (datagramProcessingSu
 
 	pkts, err := c.unpackDatagram(b[:i])
 	if err != nil {
-		return datagramProcessingSummary{}, err
+		// A datagram that cannot be split into records is silently discarded
+		// [RFC6347 Section-4.1.2.7] [RFC9147 Section-4.5.2].
+		c.log.Debugf("discarded broken datagram: %v", err)
+
+		return datagramProcessingSummary{}, nil
 	}
 
 	var summary datagramProcessingSummary
